@@ -10,7 +10,7 @@ import (
 
 var shortPool = []string{"a", "b", "c", "d", "e", "f", "g", "v", "x", "n", "h", "é", "世", "Z", "5", "z", "V", "A"}
 var longPool = []string{"alpha", "al", "alp", "beta", "verbose", "ver", "num", "name", "nam", "list", "map", "out", "help",
-	"naïve", "force", "for", "a-b", "x.y", "Alpha", "世界", "opt", "cfg", "dry-run", "k"}
+	"naïve", "force", "for", "a-b", "x.y", "Alpha", "世界", "opt", "cfg", "dry-run", "k", "dry_run", "max_size"}
 var cmdPool = []string{"add", "ad", "rm", "remote", "run", "fast", "show", "sh", "list", "dbg", "x", "naïve", "add-all", "commit", "co", "Add", "subCmd"}
 var nsPool = []string{"g", "h", "net", "db", "x.y", "ü"}
 var envPool = []string{"VF_A", "VF_B", "VF_C", "VF_D", "VF_E"}
@@ -669,6 +669,7 @@ func genArgv(r *rand.Rand, t *Tree, sc *Scenario) {
 		}
 		// positionals of this command
 		npos := 0
+		earlyDD := false
 		for _, a := range c.Args {
 			if a.Slice {
 				k := r.Intn(3)
@@ -687,6 +688,10 @@ func genArgv(r *rand.Rand, t *Tree, sc *Scenario) {
 				}
 			} else {
 				if wantValid || chance(r, 0.7) {
+					if !earlyDD && chance(r, 0.06) { // the terminator in front of a pending positional: its value is bound after `--`
+						argv = append(argv, "--")
+						earlyDD = true
+					}
 					argv = append(argv, posValue(r, a, wantValid))
 					npos++
 				} else {
@@ -731,7 +736,7 @@ func genArgv(r *rand.Rand, t *Tree, sc *Scenario) {
 		argv = append(argv, "--")
 		n := r.Intn(3)
 		for i := 0; i < n; i++ {
-			argv = append(argv, pick(r, []string{"-x", "--alpha", "after", "--", "-", "--=", "-ab"}))
+			argv = append(argv, pick(r, []string{"-x", "--alpha", "after", "--", "-", "--=", "-ab", "12", "x7", "300"}))
 		}
 	}
 	// perturbations
